@@ -90,8 +90,21 @@ def run(chk, ctx):
         todo.append((arm.tag, arm.callee, None))
     for legacy in (False, True):
         lad = tables.ladder_arms(ctx, legacy)
+        cover = ISet.empty()
         for s, arm in lad['arms']:
             todo.append((arm.tag, arm.callee, s))
+            if s is not None:
+                cover = cover.union(s)
+        # every integer of [-2**63, 2**63 - 1] is encodable: it falls into
+        # some arm of the ladder
+        want64 = ISet.range(-(1 << 63), (1 << 63) - 1)
+        gap = want64.minus(cover)
+        chk.ob('C03.I', '%s ladder covers the signed 64-bit range' %
+               ('legacy' if legacy else 'normal'), gap.is_empty(),
+               'arms cover %r' % cover if gap.is_empty() else
+               'integers %r fall into no arm (covered: %r): they are '
+               'refused although they are in the documented range' %
+               (gap, cover), site='pamqp/encode.py')
     seen = set()
     for tag, callee, arm_set in todo:
         key = (tag, callee, arm_set)
@@ -419,6 +432,13 @@ def classify_refusal(leaf, P):
             isinstance(leaf.args[1], tuple) and leaf.args[1] and \
             all(isinstance(x, int) for x in leaf.args[1]):
         return 'range'  # membership in a constant range(...) / int tuple
+    if leaf.op in ('in', 'notin') and isinstance(leaf.args[1], Sym) and \
+            leaf.args[1].op == 'range' and (
+                leaf.args[0] is P or (isinstance(leaf.args[0], Sym) and
+                                      leaf.args[0].op in (
+                                          'elem', 'index', 'typed',
+                                          'param'))):
+        return 'range'
     if leaf.op in ('lt', 'le', 'gt', 'ge', 'eq', 'ne'):
         a, b = leaf.args
 
